@@ -205,6 +205,8 @@ class Origins:
             return self.of_operand_d(a0, depth)  # reinterpretation of the same value
         if n in PASS and a0 is not None:
             return self.of_operand_d(a0, depth)
+        if n == "value" and "obj_reference::ObjectHandle" in f and a0 is not None:
+            return self.of_operand_d(a0, depth)   # the handle's own object, as an ObjectRef: same value, same kind
         if n in ("pop", "peek") and f.startswith("laythe_vm::fiber::Fiber::"):
             if n == "peek":
                 c = sem.const_int(t["args"][1]) if len(t["args"]) > 1 else None
@@ -533,6 +535,13 @@ def run_index_discipline(rec, F):
                 if "'fract'" in str(d):
                     # the guarded value must be the same origin
                     fr = True
+            if not fr and o[0] == "param" and not is_native:
+                # an index helper that leaves the test to its callers: every call site is dominated by it there
+                sites = F.callers.get(fn.path, [])
+                fr = bool(sites) and all(any("'fract'" in str(d2) for w2, d2, o2 in sem.dominating_guards(F, c2, b2)) for c2, b2 in sites)
+                if not sites and getattr(F, "inlined", {}).get(fn.path) == "kept":
+                    # a helper new to the tree: its body was spliced into every caller and is judged there, in context
+                    fr = True
             rec.inst(R, "%s:%s" % (who, fmt_origin(o)), ok=fr, loc=loc_of(s["sp"]))
             if not fr:
                 rec.finding(R, "F9.i/%s/%s" % (who, fmt_origin(o)), "%s converts the numeric argument %s to an index with `as usize` without testing that it is an integer: a fractional index is silently truncated instead of raising" % (who, fmt_origin(o)), loc=loc_of(s["sp"]), fn=fn.path)
@@ -645,6 +654,52 @@ def run_arity_enforcement(rec, F, S):
                 rest_loop = any(lastseg(t["f"]) == "index" and "RangeFrom" in t["f"] + t["g"] for bi, t in fn.calls() if bi in reg)
                 if var == "Variadic":
                     okc = nvalid >= 2 and rest_loop and limiting in ([], ["take"])
+                    if not okc and nvalid >= 1 and not limiting:
+                        # the other spelling: both slices split at the arity, the halves zipped pairwise and chained
+                        # (args[..k] x params[..k]) ++ (args[k..] x params[k..].cycle()): every argument meets a parameter
+                        # iff the fixed halves are split at the same index and the variadic parameter side is endless
+                        zips = [(bi, t) for bi, t in fn.calls() if bi in reg and lastseg(t.get("decl") or t["f"]) == "zip" and len(t["args"]) > 1]
+                        splits = [(bi, t) for bi, t in fn.calls() if bi in reg and lastseg(t["f"]) == "split_at" and len(t["args"]) > 1]
+                        chained = any(lastseg(t.get("decl") or t["f"]) == "chain" for bi, t in fn.calls() if bi in reg)
+
+                        def half(o):
+                            """(which split_at, which half, adaptor names) an iterator operand comes from"""
+                            names_, _, _ = sem.adaptor_chain(fn, o)
+                            cur = o
+                            for _k in range(10):
+                                r_ = fn.root_of(cur)
+                                if r_[0] == "call" and lastseg(r_[1]["f"]) == "split_at":
+                                    return (id(r_[1]), None, names_)
+                                if r_[0] == "call" and r_[1]["args"]:
+                                    cur = r_[1]["args"][0]
+                                    continue
+                                if r_[0] == "place":
+                                    fld = next((e[1] for e in r_[1]["p"] if e[0] == "field"), None)
+                                    base = fn.root_of({"copy": {"l": r_[1]["l"], "p": []}})
+                                    if base[0] == "call" and lastseg(base[1]["f"]) == "split_at":
+                                        return (id(base[1]), fld, names_)
+                                    cur = {"copy": {"l": r_[1]["l"], "p": []}}
+                                    if base == r_:
+                                        break
+                                    continue
+                                break
+                            return (None, None, names_)
+                        same_index = len(splits) == 2 and str(sem.desc_operand(fn, splits[0][1]["args"][1])) == str(sem.desc_operand(fn, splits[1][1]["args"][1]))
+                        good = len(zips) == 2 and chained and same_index
+                        seen_halves = set()
+                        for bi, t in zips:
+                            la, ra = half(t["args"][0]), half(t["args"][1])
+                            if la[0] is None or ra[0] is None or la[0] == ra[0]:
+                                good = False
+                                continue
+                            seen_halves.add(la[1])
+                            if la[1] == 0:
+                                good = good and ra[1] == 0
+                            elif la[1] == 1:
+                                good = good and ra[1] == 1 and any(n_ in ("cycle", "repeat", "repeat_with") for n_ in ra[2])
+                            else:
+                                good = False
+                        okc = good and seen_halves == {0, 1}
                 else:
                     okc = nvalid >= 1 and not limiting
                 rec.inst(R, "%s:%s:is_valid covers all arguments" % (name, var), ok=okc, loc=fn.loc, note="is_valid x%d, adaptors %s, rest loop %s" % (nvalid, limiting, rest_loop))
